@@ -80,17 +80,18 @@ func decidableCore(name string, sv fzSV, stores, ids []string) string {
 	if len(sv.Override) > 0 && sv.Level == "skip" {
 		return "override-on-skip"
 	}
-	for k, v := range sv.Override { // each entry is judged on its own: iteration order does not matter for "any"
-		switch {
-		case !in(knownTypes, k):
-			return "override-unknown-type"
-		case !in(knownActions, v):
-			return "override-unknown-action"
-		case k == "integrity":
-			return "override-integrity"
-		case v == "skip" && k != "revocation":
-			return "override-skip-non-revocation"
-		}
+	// each entry is judged on its own (map order is immaterial); entries with an unknown
+	// type or action are not judged (statementSilent)
+	integrity, skipped := false, false
+	for k, v := range sv.Override {
+		integrity = integrity || k == "integrity"
+		skipped = skipped || (v == "skip" && k != "revocation" && k != "integrity" && in(knownTypes, k))
+	}
+	if integrity {
+		return "override-integrity"
+	}
+	if skipped {
+		return "override-skip-non-revocation"
 	}
 	if !in(knownVT, sv.VerifyTimestamp) {
 		return "verify-timestamp-unknown"
@@ -165,9 +166,6 @@ func decidableOCI(d *fzOCIDoc) string {
 		if r := decidableCore(s.Name, s.SignatureVerification, s.TrustStores, s.TrustedIdentities); r != "" {
 			return r
 		}
-		if len(s.RegistryScopes) == 0 {
-			return "scope-none"
-		}
 		mine := map[string]bool{}
 		for _, sc := range s.RegistryScopes {
 			if sc == wildcard {
@@ -226,9 +224,82 @@ type fuzzCase struct {
 	Input string `json:"input"`
 }
 
-// fuzzOne is the body shared by the fuzz target and TestC09_FuzzSeeds. It returns what
-// happened per kind ("undecodable", "reject", "accept") for the statistics.
+// fuzzOne is the body shared by the fuzz target and TestC09_FuzzSeeds: the input itself and
+// its structural variants. It returns what happened to the input per kind ("undecodable",
+// "reject", "accept") for the statistics.
 func fuzzOne(t stats.Failer, rec *stats.Recorder, data []byte) (ociOutcome, blobOutcome string) {
+	ociOutcome, blobOutcome = fuzzBytes(t, rec, data)
+	if ociOutcome == "undecodable" && blobOutcome == "undecodable" {
+		return
+	}
+	for _, v := range structuralVariants(data) {
+		fuzzBytes(t, rec, v)
+	}
+	return
+}
+
+// structuralVariants: byte-level mutation rarely performs a typed change of one member, so
+// every input that is a JSON document with statements is also tried with, per statement
+// (the first four): globalPolicy toggled; each other known level; stores and identities
+// removed. The oracle is the same for every variant, whatever it looks like.
+func structuralVariants(data []byte) [][]byte {
+	var top map[string]any
+	if json.Unmarshal(data, &top) != nil {
+		return nil
+	}
+	stmts, _ := top["trustPolicies"].([]any)
+	var out [][]byte
+	emit := func(i int, edit func(m map[string]any)) {
+		orig, ok := stmts[i].(map[string]any)
+		if !ok {
+			return
+		}
+		m := map[string]any{}
+		for k, v := range orig {
+			m[k] = v
+		}
+		edit(m)
+		list := append([]any{}, stmts...)
+		list[i] = m
+		t2 := map[string]any{}
+		for k, v := range top {
+			t2[k] = v
+		}
+		t2["trustPolicies"] = list
+		if b, err := json.Marshal(t2); err == nil {
+			out = append(out, b)
+		}
+	}
+	for i := 0; i < len(stmts) && i < 4; i++ {
+		emit(i, func(m map[string]any) {
+			g, _ := m["globalPolicy"].(bool)
+			m["globalPolicy"] = !g
+		})
+		for _, l := range knownLevels {
+			l := l
+			emit(i, func(m map[string]any) {
+				sv, _ := m["signatureVerification"].(map[string]any)
+				sv2 := map[string]any{}
+				for k, v := range sv {
+					sv2[k] = v
+				}
+				if sv2["level"] == l {
+					sv2["level"] = "" // the current level: try the empty one instead
+				} else {
+					sv2["level"] = l
+				}
+				m["signatureVerification"] = sv2
+			})
+		}
+		emit(i, func(m map[string]any) {
+			delete(m, "trustStores")
+			delete(m, "trustedIdentities")
+		})
+	}
+	return out
+}
+
+func fuzzBytes(t stats.Failer, rec *stats.Recorder, data []byte) (ociOutcome, blobOutcome string) {
 	one := func(kind string) (out string) {
 		c := fuzzCase{Kind: kind, Input: string(data)}
 		defer func() {
